@@ -373,6 +373,7 @@ func RunReplay(family string, path RPath, slot int, stub string) (steps int, div
 				if addr, err = z.Listen(); err == nil {
 					err = nodes[a.A].Connect(addr)
 				}
+				z.WaitConnected(2 * time.Second)
 			} else {
 				err = nodes[a.A].Connect(nodes[a.B].Addr())
 			}
